@@ -121,13 +121,27 @@ func PruneFeatures(mods []*Mod, on map[string]bool) []*Mod {
 			augs = append(augs, a)
 		}
 		m.Augments = augs
+		var rpcs []*Rpc
 		for _, r := range m.Rpcs {
+			if !ok(m, r.IfFeatures) {
+				continue
+			}
+			r.IfFeatures = nil
 			r.Input = prune(m, r.Input, "")
 			r.Output = prune(m, r.Output, "")
+			rpcs = append(rpcs, r)
 		}
+		m.Rpcs = rpcs
+		var notifs []*Notif
 		for _, n := range m.Notifs {
+			if !ok(m, n.IfFeatures) {
+				continue
+			}
+			n.IfFeatures = nil
 			n.Kids = prune(m, n.Kids, "")
+			notifs = append(notifs, n)
 		}
+		m.Notifs = notifs
 	}
 	return out
 }
